@@ -78,6 +78,7 @@ def main(argv=None):
         return 2
 
     engine.CURRENT_PID[0] = pid
+    engine.CURRENT_TIER[0] = args.tier
     if args.replay:
         data = engine.unjson(json.load(open(args.replay)))
         try:
